@@ -143,25 +143,6 @@ func c16Extract(obs string, parts []string) (vals []string, ok bool) {
 	return vals, true
 }
 
-func respClass(r Response) (string, string) {
-	switch r.RespType {
-	case RespError:
-		if e, ok := r.Data.(error); ok && e != nil {
-			return "error", e.Error()
-		}
-		return "error", ""
-	case RespPrepare:
-		return "prepared", ""
-	case RespNoop:
-		return "noop", ""
-	case RespOK:
-		return "ok", ""
-	case RespResult:
-		return "result", ""
-	}
-	return fmt.Sprintf("resp%d", r.RespType), ""
-}
-
 func TestVerifStmtLifecycle(t *testing.T) {
 	fix, err := stmtGetFixture()
 	if err != nil {
